@@ -86,13 +86,22 @@ fn gen_tape(rng: &mut Rng64) -> Vec<u8> {
 
 /// Shard a batch honestly. Any refusal/panic is a violation (returns None then).
 fn shard_batch(ctx: &mut Ctx, rng: &mut Rng64, bits: usize, inputs: Vec<Bits>) -> Option<Inst> {
-    let vdaf = Poplar1::new_turboshake128(bits);
     let vctx = gen_vctx(rng);
     let key: [u8; 32] = rng.array_edge();
+    shard_batch_with(ctx, rng, bits, inputs, vctx, key, None)
+}
+
+/// As `shard_batch`, with the context, verification key and (optionally) the nonces dictated by
+/// the caller, so that several tasks can share some of them.
+fn shard_batch_with(ctx: &mut Ctx, rng: &mut Rng64, bits: usize, inputs: Vec<Bits>, vctx: Vec<u8>, key: [u8; 32], nonces: Option<&[[u8; 16]]>) -> Option<Inst> {
+    let vdaf = Poplar1::new_turboshake128(bits);
     let mut reports = Vec::with_capacity(inputs.len());
-    for x in &inputs {
+    for (xi, x) in inputs.iter().enumerate() {
         let m = to_input(x);
-        let nonce: [u8; 16] = rng.array_edge();
+        let nonce: [u8; 16] = match nonces {
+            Some(n) => n[xi % n.len()],
+            None => rng.array_edge(),
+        };
         let os = rng.chance(1, 4);
         let tape = if os { None } else { Some(gen_tape(rng)) };
         let r = match &tape {
@@ -715,6 +724,109 @@ fn part_random(ctx: &mut Ctx) {
     }
 }
 
+/// Several aggregation tasks that share some of (nonce sequence, context, verification key) and
+/// differ in the rest are verified INTERLEAVED on one thread (task A report 0, task B report 0, A
+/// again, ...). Any state carried from one call to the next (a memo keyed by only part of what the
+/// derived value depends on, a cache that outlives its report) shows up as a rejected honest report
+/// or a wrong count. Ordinary use has random nonces and one context per thread and never collides.
+fn part_shared_state(ctx: &mut Ctx) {
+    let mut rng = ctx.rng("c03-shared-state");
+    let n_cases = (ctx.budget(1_600, 40_000) / ctx.nshards as u64).max(4);
+    for case in 0..n_cases {
+        let bits = *rng.choose(&[2usize, 3, 5, 8, 16, 16, 64, 130]);
+        let n_tasks = 2 + rng.usize_below(3);
+        let batch = 1 + rng.usize_below(3);
+        // what the tasks share
+        let share_nonce = rng.chance(4, 5);
+        let share_ctx = rng.chance(1, 4);
+        let share_key = rng.bool();
+        let base_ctx = gen_vctx(&mut rng);
+        let base_ctx = if base_ctx.len() > 200 { base_ctx[..40].to_vec() } else { base_ctx };
+        let base_key: [u8; 32] = rng.array_edge();
+        let nonce_style = rng.below(3);
+        let base_nonces: Vec<[u8; 16]> = (0..batch)
+            .map(|j| match nonce_style {
+                0 => {
+                    let mut n = [0u8; 16]; // counter nonces
+                    n[15] = j as u8;
+                    n
+                }
+                1 => [0xabu8; 16], // one nonce for everything
+                _ => rng.array(),
+            })
+            .collect();
+        let mut insts = vec![];
+        for t in 0..n_tasks {
+            let vctx = if share_ctx {
+                base_ctx.clone()
+            } else {
+                match t {
+                    0 => base_ctx.clone(),
+                    1 => {
+                        let mut c = base_ctx.clone();
+                        c.push(1);
+                        c
+                    }
+                    2 => {
+                        let mut c = base_ctx.clone();
+                        if c.is_empty() {
+                            c.push(7)
+                        } else {
+                            let k = c.len() - 1;
+                            c[k] ^= 0x80;
+                        }
+                        c
+                    }
+                    _ => { let n = 1 + rng.usize_below(20); rng.bytes(n) }
+                }
+            };
+            let key = if share_key { base_key } else { rng.array() };
+            let nonces: Vec<[u8; 16]> = if share_nonce { base_nonces.clone() } else { (0..batch).map(|_| rng.array()).collect() };
+            let inputs = gen_inputs(&mut rng, bits, batch);
+            match shard_batch_with(ctx, &mut rng, bits, inputs, vctx, key, Some(&nonces)) {
+                Some(i) => insts.push(i),
+                None => break,
+            }
+        }
+        if insts.len() != n_tasks {
+            continue;
+        }
+        ctx.trace(|| format!("shared-state case {case}: bits={bits} tasks={n_tasks} share nonce/ctx/key={share_nonce}/{share_ctx}/{share_key}"));
+        // levels: an inner one and the leaf (when distinct), same for all tasks
+        let mut levels = vec![bits - 1];
+        if bits > 1 {
+            levels.push(rng.usize_below(bits - 1));
+        }
+        let mut all_ok = true;
+        for level in levels {
+            let sets: Vec<Vec<Bits>> = insts.iter().map(|i| { let sh = if rng.bool() { "onpath" } else { "siblings" }; gen_prefix_set(&mut rng, sh, &i.inputs, level, 12) }).collect();
+            for round in 0..2 {
+                let mut order: Vec<usize> = (0..n_tasks).collect();
+                if round == 1 {
+                    rng.shuffle(&mut order);
+                }
+                for &t in &order {
+                    if run_param(ctx, &insts[t], &sets[t], "shared-state-interleaved").is_none() {
+                        all_ok = false;
+                    }
+                }
+            }
+        }
+        if all_ok {
+            ctx.count("shared_state_cases_completed");
+            if share_nonce && !share_ctx {
+                ctx.count("shared_state_cases_same_nonce_other_ctx");
+            }
+            if share_nonce && share_ctx && !share_key {
+                ctx.count("shared_state_cases_same_nonce_same_ctx_other_key");
+            }
+            if !share_nonce && share_ctx {
+                ctx.count("shared_state_cases_other_nonce_same_ctx");
+            }
+        }
+    }
+}
+
 fn part_deep(ctx: &mut Ctx) {
     let mut rng = ctx.rng("c03-deep");
     const DEEP_BITS: [usize; 6] = [21846, 21847, 21848, 21900, 65535, 65536];
@@ -915,8 +1027,9 @@ fn part_heavy_hitters(ctx: &mut Ctx) {
 }
 
 pub fn run(ctx: &mut Ctx) {
-    let parts: [(&str, fn(&mut Ctx)); 5] = [
+    let parts: [(&str, fn(&mut Ctx)); 6] = [
         ("exhaustive", part_exhaustive),
+        ("shared_state", part_shared_state),
         ("heavy_hitters", part_heavy_hitters),
         ("deep", part_deep),
         ("big_sets", part_big_sets),
